@@ -1973,6 +1973,8 @@ async def sc_flags(ctx, rng, desc):
         w.track(0, [cid])
         await w.api(mk, line)
         await run_fifo(w, 40)
+        # drop the first circuit again: create_circuit would otherwise offer its (non-relaying) first hop as a first hop
+        await w.api(lambda: ov.remove_circuit(cid, "done", remove_now=True), lambda _: f"0 remove {cid}")
         # a second, regular circuit; once its first hop is there the owner also names a key nobody knows, no address
         c2 = await start_circuit(w, 3)
         sent = [False]
@@ -2176,6 +2178,111 @@ async def sc_id_reuse(ctx, rng, desc, variant):
             ctx.count("id-reuse:late-created-of-dead-circuit")
             await w.deliver(h)
         await run_fifo(w, 80)
+        await w.finish()
+        return w
+    finally:
+        await w.close()
+
+
+async def sc_candidate_moves(ctx, rng, desc, hops):
+    """everyone honest: between the relay's join (when it offered its candidates) and the originator's extend, the
+    selected candidate B changes its address (the relay learns the new one, as after a new introduction) and another
+    tunnel node becomes reachable at B's old address"""
+    w = await build_world(ctx, rng, desc)
+    try:
+        c = await start_circuit(w, hops)
+        moved = [False]
+
+        async def on_msg(h: Held):
+            # the EXTEND for the LAST hop is about to reach the relay: move the selected peer first
+            if (not moved[0] and c is not None and h.kind == -1 and h.from_idx == 0 and c.unverified_hop is not None
+                    and len(c.hops) == hops - 1 and len(c.hops) >= 1):
+                b_idx = w.addr_idx.get(c.unverified_hop.peer.address)
+                if b_idx is None:      # address unknown to the originator (0.0.0.0): find the node by key
+                    kb = c.unverified_hop.peer.public_key.key_to_bin()
+                    b_idx = next((i for i, n in enumerate(w.nodes) if n.my_peer.public_key.key_to_bin() == kb), None)
+                on_path = {w.addr_idx.get(hp.peer.address) for hp in c.hops} | {0, b_idx}
+                others = [i for i in range(1, len(w.nodes)) if i not in on_path]
+                if b_idx is None or not others:
+                    return None
+                moved[0] = True
+                c_idx = rng.choice(others)
+                bn, cn = w.nodes[b_idx], w.nodes[c_idx]
+                old = bn.endpoint.wan_address
+                new = type(old)("10.%d.%d.%d" % (rng.randrange(1, 250), rng.randrange(250), rng.randrange(1, 250)),
+                                rng.randrange(1024, 60000))
+                # B now lives at `new`; the node C is (also) reachable at B's old address
+                bn.endpoint.wan_address = new
+                bn.endpoint.lan_address = new
+                bn.my_peer.address = new
+                w.mep.internet[new] = Proxy(w, b_idx, bn.endpoint)
+                w.addr_idx[new] = b_idx
+                w.mep.internet[old] = Proxy(w, c_idx, cn.endpoint)
+                w.addr_idx[old] = c_idx
+                # every node that knows B learns the new address (what a fresh introduction does to the live Peer object)
+                kb = bn.my_peer.public_key.key_to_bin()
+                for n in w.nodes:
+                    for peer in list(n.overlay.network.verified_peers):
+                        if peer.public_key.key_to_bin() == kb:
+                            peer.address = new
+                ctx.count("candidate-moves:address-changed-between-join-and-extend")
+            return None
+        await run_fifo(w, 160, on_msg)
+        if moved[0]:
+            final_honest_checks(w, [c], expect_ready=True)
+        await w.finish()
+        return w
+    finally:
+        await w.close()
+
+
+async def sc_own_id_collision(ctx, rng, desc, order):
+    """WHITE-BOX: node 0 relays somebody else's circuit and has reserved an outgoing circuit id for its extension (next
+    hop slow); node 0's own `_generate_circuit_id` is then FORCED to hand out that very id for a circuit node 0
+    originates itself (a 2^-32 coincidence in reality: the generator only avoids ids of existing circuits, not reserved
+    ones); afterwards the late CREATED of the relayed extension arrives"""
+    w = await build_world(ctx, rng, desc)
+    try:
+        ov = w.nodes[0].overlay
+        a_idx = rng.choice([1, 2, 3])
+        aov = w.nodes[a_idx].overlay
+        exits = [i for i, fl in enumerate(w.flags) if w.tn.PEER_FLAG_EXIT_BT in fl]
+        x_idx = rng.choice(exits)
+        X, O = w.nodes[x_idx].my_peer, w.nodes[0].my_peer
+        ca = aov._generate_circuit_id()
+        w.track(a_idx, [ca])
+        w.track(0, [ca])
+
+        def mk():
+            circ = w.tn.Circuit(ca, 2, required_exit=X)
+            aov.circuits[ca] = circ
+            aov.send_initial_create(circ, [O], 6)
+            return circ
+        await w.api(mk, lambda _: f"{a_idx} cc {ca} 2 {x_idx + 1} [1] {w.env_s(a_idx, ca)}")
+        slow = []
+
+        async def hold_x(h: Held):
+            if h.kind == 3 and h.dst == 0 and h.from_idx == x_idx and not slow:
+                slow.append(h)
+                return "handled"
+            return None
+        await run_fifo(w, 60, hold_x)
+        if slow:
+            reserved = slow[0].cid
+            w.tampered = True
+            ctx.count("whitebox:forced-circuit-id-collision")
+            real_gen = ov._generate_circuit_id
+            ov._generate_circuit_id = lambda: reserved
+            try:
+                own = await start_circuit(w, rng.choice([1, 2]))
+            finally:
+                ov._generate_circuit_id = real_gen
+            if order == "late-created-after-ready":
+                await run_fifo(w, 120, hold_x)
+                await w.deliver(slow[0])
+            else:
+                await w.deliver(slow[0])
+            await run_fifo(w, 120)
         await w.finish()
         return w
     finally:
@@ -2525,6 +2632,11 @@ def scenario_list(ctx: Ctx, tier: str):
             for v in ("bad-only", "relays-then-bad", "bad-relay", "empty", "only-me", "garbage-bytes"):
                 out.append({"k": "bad-candidates", "hops": hops, "pos": pos, "variant": v})
         out.append({"k": "flags", "extra_nodes": True, "n": hops})
+        if hops > 1:
+            out.append({"k": "candidate-moves", "hops": hops, "rtd": 0})
+            out.append({"k": "candidate-moves", "hops": hops, "rtd": None, "hidden": True})
+        for order in ("late-created-after-ready", "late-created-first"):
+            out.append({"k": "own-id-collision", "order": order, "n": hops})
         out.append({"k": "id-reuse", "variant": "after-reservation", "n": hops, "rtd": 0})
         out.append({"k": "id-reuse", "variant": "after-reservation", "n": hops, "rtd": None})
         out.append({"k": "id-reuse", "variant": "at-once", "n": hops})
@@ -2622,6 +2734,10 @@ async def run_scenario(ctx, d: dict, sub_seed: int):
         return await sc_raw_inject(ctx, rng, desc, d["hops"], d["when"])
     if k == "id-reuse":
         return await sc_id_reuse(ctx, rng, desc, d["variant"])
+    if k == "candidate-moves":
+        return await sc_candidate_moves(ctx, rng, desc, d["hops"])
+    if k == "own-id-collision":
+        return await sc_own_id_collision(ctx, rng, desc, d["order"])
     if k == "flags":
         return await sc_flags(ctx, rng, desc)
     if k == "id-squat":
@@ -2717,6 +2833,7 @@ REQUIRED_BRANCHES = [
     "raw-cell:UDPIPv4:dropped", "raw-cell:UDPIPv6:dropped", "raw-cell:single:dropped",
     "schedule:next-datagram-after-one-loop-iteration",
     "id-reuse:exit-socket-destroyed", "id-reuse:late-created-of-dead-circuit", "id-reuse:suspended-on_extend-resumed",
+    "candidate-moves:address-changed-between-join-and-extend", "whitebox:forced-circuit-id-collision",
 ]
 # listed in the design but NOT required: unreachable behind the Python dispatcher / after fix 4ca5f25
 UNREACHABLE_BRANCHES = ["branch:on_create:id-in-use-relay", "branch:answer:no-unverified-hop"]
